@@ -423,5 +423,11 @@ Section Oracle.
     Definition handle (fixed_F1 : bool) (m : mode) (cfg : config) (r : reqline) (raw : raw_hdrs) : served :=
       serve fixed_F1 (map entry_of (configured m cfg)) (parse_ip (ip_from_host_port (r_remote r)))
             (conn_of r) (parse_headers raw).
+
+    (** one instance of the service: trustedproxy.New returns a closure over the holder set, which is never
+        written after construction, and requestcontext.New builds a new context per request — an instance
+        keeps nothing from one request to the next.  A history of requests is served one by one. *)
+    Definition run_instance (fixed_F1 : bool) (m : mode) (cfg : config) (reqs : list (reqline * raw_hdrs)) : list served :=
+      map (fun rq => handle fixed_F1 m cfg (fst rq) (snd rq)) reqs.
   End Net.
 End Oracle.
